@@ -313,6 +313,33 @@ func New(cfg Config) *World {
 	return w
 }
 
+// NewOnDB builds the application over an existing database. fresh=true: InitChain + BeginBlock(1) as New does;
+// fresh=false: the application loads the latest committed version (a process restart) and the caller begins the
+// next block.
+func NewOnDB(cfg Config, db dbm.DB, fresh bool) *World {
+	cfg = cfg.withDefaults()
+	home, err := os.MkdirTemp("", "saomc-home-")
+	if err != nil {
+		panic(err)
+	}
+	a, enc := NewApp(db, home)
+	actors := MakeActors()
+	w := &World{App: a, Enc: enc, Actors: actors, DB: db, Cfg: cfg, home: home}
+	if fresh {
+		gs, pks := Genesis(enc, actors, cfg)
+		w.ValPk = pks
+		bz, _ := json.Marshal(gs)
+		cp := simapp.DefaultConsensusParams
+		cpc := *cp
+		blk := *cp.Block
+		blk.MaxGas = -1
+		cpc.Block = &blk
+		a.InitChain(abci.RequestInitChain{ChainId: ChainID, AppStateBytes: bz, ConsensusParams: &cpc, Time: BlockTime(0)})
+		a.BeginBlock(abci.RequestBeginBlock{Header: w.Header(1)})
+	}
+	return w
+}
+
 func (w *World) Close() { os.RemoveAll(w.home) }
 
 // DeliverCtx is the context of the block in progress of the real app (deliver state).
